@@ -7,6 +7,7 @@ use std::pin::Pin;
 use std::sync::atomic::{AtomicU64, Ordering};
 use std::task::{Context, Poll, RawWaker, RawWakerVTable, Waker};
 use wtransport_proto::bytes::AsyncRead;
+use wtransport_proto::bytes::AsyncWrite;
 
 // ---------------------------------------------------------------------------------------------
 // allocation accounting (per thread)
@@ -199,6 +200,47 @@ pub fn poll_n<F: Future>(fut: F, max_polls: usize) -> Option<F::Output> {
         }
     }
     None
+}
+
+
+// ---------------------------------------------------------------------------------------------
+// scripted sink: accepts at most `max_per_write` bytes per write (a flow-control window that opens little by little)
+// and reports Pending where the mask says so (bit n = n-th poll); optionally fails after `fail_after` bytes
+
+pub struct ScriptedSink {
+    pub out: Vec<u8>,
+    pub max_per_write: usize,
+    pub pending_mask: u64,
+    pub polls: u32,
+    pub fail_after: Option<usize>,
+}
+
+impl ScriptedSink {
+    pub fn new(max_per_write: usize, pending_mask: u64) -> Self {
+        ScriptedSink { out: vec![], max_per_write, pending_mask, polls: 0, fail_after: None }
+    }
+}
+
+impl AsyncWrite for ScriptedSink {
+    fn poll_write(mut self: Pin<&mut Self>, _cx: &mut Context<'_>, buf: &[u8]) -> Poll<std::io::Result<usize>> {
+        let this = &mut *self;
+        let n = this.polls;
+        this.polls += 1;
+        if this.pending_mask & (1 << (n % 64)) != 0 {
+            return Poll::Pending;
+        }
+        if let Some(limit) = this.fail_after {
+            if this.out.len() >= limit {
+                return Poll::Ready(Err(std::io::Error::new(std::io::ErrorKind::ConnectionReset, "stopped")));
+            }
+        }
+        let mut amt = buf.len().min(this.max_per_write);
+        if let Some(limit) = this.fail_after {
+            amt = amt.min(limit - this.out.len());
+        }
+        this.out.extend_from_slice(&buf[..amt]);
+        Poll::Ready(Ok(amt))
+    }
 }
 
 // ---------------------------------------------------------------------------------------------
